@@ -19,6 +19,7 @@ import (
 
 type workerResult struct {
 	shard    int
+	partial  *workerOut // checkpoint of a worker that died later
 	out      *workerOut
 	crashed  bool
 	stalled  bool
@@ -59,6 +60,7 @@ func spawn(self string, chk *Check, tier string, seed int64, shard, n int, outfi
 	}
 	cmd := exec.Command("sh", "-c", fmt.Sprintf("ulimit -v %d; exec %s", mem, strings.Join(quoted, " ")))
 	cmd.Env = append(os.Environ(), "GOMAXPROCS=2", "GOTRACEBACK=single")
+	cmd.Env = append(cmd.Env, "VERIF_TRACE_FILE="+outfile+".lastinput", "VERIF_CASE_FILE="+outfile+".case")
 	if strings.HasSuffix(self, "-race") {
 		cmd.Env = append(cmd.Env, "GORACE=log_path="+outfile+".racelog halt_on_error=0 exitcode=0", "VERIF_RACE_LOG="+outfile+".racelog")
 	}
@@ -76,7 +78,7 @@ func spawn(self string, chk *Check, tier string, seed int64, shard, n int, outfi
 	}
 	var mu sync.Mutex
 	lastChange := time.Now()
-	var tail []string
+	var tail, head []string
 	done := make(chan struct{})
 	go func() {
 		sc := bufio.NewScanner(pr)
@@ -103,6 +105,9 @@ func spawn(self string, chk *Check, tier string, seed int64, shard, n int, outfi
 					tail = append(tail, line)
 				}
 			} else {
+				if len(head) < 40 {
+					head = append(head, line)
+				}
 				tail = append(tail, line)
 				if len(tail) > 60 {
 					tail = tail[len(tail)-60:]
@@ -140,7 +145,15 @@ loop:
 	}
 	mu.Lock()
 	res.stderr = strings.Join(tail, "\n")
+	if len(head) == 40 && len(tail) == 60 {
+		res.stderr = strings.Join(head, "\n") + "\n...\n" + res.stderr
+	}
 	mu.Unlock()
+	if res.crashed || res.stalled {
+		if o := loadWorkerOut(outfile + ".ckpt"); o != nil {
+			res.partial = o
+		}
+	}
 	if !res.crashed && !res.stalled {
 		b, err := os.ReadFile(outfile)
 		if err != nil {
@@ -170,6 +183,28 @@ loop:
 	}
 	os.Remove(outfile)
 	return res
+}
+
+func loadWorkerOut(path string) *workerOut {
+	b, err := os.ReadFile(path)
+	if err != nil {
+		return nil
+	}
+	var o workerOut
+	if json.Unmarshal(b, &o) != nil {
+		return nil
+	}
+	o.Distinct = map[string][]uint64{}
+	for set := range o.DistinctN {
+		if db, err := os.ReadFile(path + ".d." + set); err == nil {
+			hs := make([]uint64, len(db)/8)
+			for i := range hs {
+				hs[i] = binary.LittleEndian.Uint64(db[i*8:])
+			}
+			o.Distinct[set] = hs
+		}
+	}
+	return &o
 }
 
 func shq(s string) string { return "'" + strings.ReplaceAll(s, "'", "'\\''") + "'" }
@@ -263,7 +298,54 @@ func Supervise(self string, chk *Check, tier string) int {
 		}
 		viol[v.Signature] = v
 	}
-	for _, r := range results {
+	// dead or stalled workers: read the case each was working on and confirm it alone, all in parallel
+	ones := make([]*workerResult, len(results))
+	caseIdxs := make([]int64, len(results))
+	{
+		var wg2 sync.WaitGroup
+		for ri, r := range results {
+			caseIdxs[ri] = -1
+			if r.out != nil {
+				continue
+			}
+			if b, err := os.ReadFile(filepath.Join(tmp, fmt.Sprintf("w%d_%d.json.case", ri/n, ri%n))); err == nil && len(b) == 8 {
+				caseIdxs[ri] = int64(binary.LittleEndian.Uint64(b))
+			}
+			if caseIdxs[ri] >= 0 {
+				wg2.Add(1)
+				go func(ri int, r *workerResult) {
+					defer wg2.Done()
+					ones[ri] = spawn(selfFor(selfOf, results, r, self), chk, tier, seed, r.shard, n, filepath.Join(tmp, fmt.Sprintf("o%d.json", ri)), stall, "--only", strconv.FormatInt(caseIdxs[ri], 10))
+				}(ri, r)
+			}
+		}
+		wg2.Wait()
+	}
+	for ri, r := range results {
+		if r.out == nil && r.partial != nil {
+			for k, v := range r.partial.Counters {
+				if strings.HasPrefix(k, "max:") {
+					if v > merged[k] {
+						merged[k] = v
+					}
+				} else {
+					merged[k] += v
+				}
+			}
+			for _, v := range r.partial.Violations {
+				addViol(v)
+			}
+			for set, hs := range r.partial.Distinct {
+				m := distinct[set]
+				if m == nil {
+					m = map[uint64]struct{}{}
+					distinct[set] = m
+				}
+				for _, h := range hs {
+					m[h] = struct{}{}
+				}
+			}
+		}
 		if r.out != nil {
 			for k, v := range r.out.Counters {
 				if strings.HasPrefix(k, "max:") {
@@ -315,36 +397,58 @@ func Supervise(self string, chk *Check, tier string) int {
 		if r.crashed {
 			kind = crashKind(r.stderr)
 		}
-		fmt.Fprintf(os.Stderr, "[supervisor] worker %d %s (%s); re-running shard in trace mode to pin the case\n", r.shard, kind, r.exitInfo)
-		tr := spawn(selfFor(selfOf, results, r, self), chk, tier, seed, r.shard, n, filepath.Join(tmp, fmt.Sprintf("t%d.json", r.shard)), stall, "--trace")
-		caseIdx := int64(-1)
-		if m := traceRe.FindAllStringSubmatch(tr.stderr, -1); len(m) > 0 {
-			caseIdx, _ = strconv.ParseInt(m[len(m)-1][1], 10, 64)
-		}
-		if tr.out != nil {
-			// not reproducible in trace mode: infrastructure problem, not a verdict
-			fmt.Fprintf(os.Stderr, "[supervisor] worker %d failure did not reproduce in trace mode; first stderr:\n%s\n", r.shard, r.stderr)
-			infra++
-			continue
+		caseIdx := caseIdxs[ri]
+		fmt.Fprintf(os.Stderr, "[supervisor] worker %d %s (%s) at case %d\n", r.shard, kind, r.exitInfo, caseIdx)
+		tr := r
+		if caseIdx < 0 {
+			fmt.Fprintf(os.Stderr, "[supervisor] no case record; re-running shard %d in trace mode to pin the case\n", r.shard)
+			tr = spawn(selfFor(selfOf, results, r, self), chk, tier, seed, r.shard, n, filepath.Join(tmp, fmt.Sprintf("t%d.json", r.shard)), stall, "--trace")
+			if m := traceRe.FindAllStringSubmatch(tr.stderr, -1); len(m) > 0 {
+				caseIdx, _ = strconv.ParseInt(m[len(m)-1][1], 10, 64)
+			}
+			if tr.out != nil {
+				fmt.Fprintf(os.Stderr, "[supervisor] worker %d failure did not reproduce in trace mode; first stderr:\n%s\n", r.shard, r.stderr)
+				infra++
+				continue
+			}
 		}
 		kind2 := "hang"
 		if tr.crashed {
 			kind2 = crashKind(tr.stderr)
 		}
-		// confirm in isolation: run only that case
+		// confirmed in isolation (only that case was run)?
 		confirmed := false
-		if caseIdx >= 0 {
-			one := spawn(selfFor(selfOf, results, r, self), chk, tier, seed, r.shard, n, filepath.Join(tmp, fmt.Sprintf("o%d.json", r.shard)), stall, "--only", strconv.FormatInt(caseIdx, 10))
+		if one := ones[ri]; one != nil {
 			confirmed = one.out == nil
-			if !confirmed && one.out != nil {
+			if confirmed {
+				tr = one
+				kind2 = "hang"
+				if one.crashed {
+					kind2 = crashKind(one.stderr)
+				}
+			} else {
 				for _, v := range one.out.Violations {
 					addViol(v)
 				}
 			}
 		}
+		lastInput := ""
+		for _, f := range []string{filepath.Join(tmp, fmt.Sprintf("o%d.json.lastinput", ri)), filepath.Join(tmp, fmt.Sprintf("t%d.json.lastinput", r.shard))} {
+			if b, err := os.ReadFile(f); err == nil && lastInput == "" {
+				lastInput = string(b)
+			}
+		}
 		w, _ := json.Marshal(map[string]interface{}{"case_index": caseIdx, "shard": r.shard, "nshards": n, "tier": tier,
-			"kind": kind2, "confirmed_alone": confirmed, "stderr_tail": lastLines(tr.stderr, 12)})
-		addViol(&Violation{Signature: "process-" + kind2 + ":" + crashSite(tr.stderr), Message: fmt.Sprintf("worker process %s at case %d", kind2, caseIdx), Witness: w, Count: 1, Order: caseIdx})
+			"kind": kind2, "confirmed_alone": confirmed, "last_input": lastInput, "stderr_tail": lastLines(tr.stderr, 12)})
+		site := crashSite(tr.stderr)
+		if f := strings.Fields(lastInput); len(f) > 0 {
+			// the check's own description of the input class is a stabler discriminator than the topmost frame of a crash dump
+			site = f[0]
+			if len(f) > 1 && strings.HasPrefix(f[1], "value=") {
+				site += ":" + strings.TrimPrefix(f[1], "value=")
+			}
+		}
+		addViol(&Violation{Signature: "process-" + kind2 + ":" + site, Message: fmt.Sprintf("worker process %s at case %d; last input: %s", kind2, caseIdx, SanitizeLine(lastInput)), Witness: w, Count: 1, Order: caseIdx})
 		capped = true
 		notes = append(notes, fmt.Sprintf("shard %d did not complete (%s at case %d)", r.shard, kind2, caseIdx))
 	}
